@@ -4930,12 +4930,11 @@ bool RemapCompareLess(FunctionRemap *in1, FunctionRemap *in2) {
     return in2->_const_method;
   }
 
-  if (in1->_parameters.size() != in2->_parameters.size()) {
-    return (in1->_parameters.size() > in2->_parameters.size());
-  }
-
-  int pcount = in1->_parameters.size();
-  for (int x = 0; x < pcount; x++) {
+  // Compare the parameters both overloads have in common first, so that an
+  // overload with additional (defaulted) parameters does not hide a shorter
+  // overload whose parameters are more specific, as in f(B *) vs. f(A *, int = 0).
+  size_t pcount = std::min(in1->_parameters.size(), in2->_parameters.size());
+  for (size_t x = 0; x < pcount; x++) {
     CPPType *orig_type1 = in1->_parameters[x]._remap->get_orig_type();
     CPPType *orig_type2 = in2->_parameters[x]._remap->get_orig_type();
 
@@ -4944,6 +4943,10 @@ bool RemapCompareLess(FunctionRemap *in1, FunctionRemap *in2) {
     if (pd1 != pd2) {
       return (pd1 > pd2);
     }
+  }
+
+  if (in1->_parameters.size() != in2->_parameters.size()) {
+    return (in1->_parameters.size() > in2->_parameters.size());
   }
 
   // ok maybe something to do with return strength..
